@@ -52,7 +52,7 @@ pub struct Keyed {
     pub nb: usize,
 }
 
-pub fn keygen(srs: &mut Srs, rel: &MixRelation) -> Result<Keyed, String> {
+pub fn keygen<R: Relation>(srs: &mut Srs, rel: &R) -> Result<Keyed, String> {
     let k = MidnightCircuit::from_relation(rel).min_k();
     let params = srs.get(k);
     let vk = midnight_zk_stdlib::setup_vk(params, rel);
